@@ -229,6 +229,20 @@ def exec_case(ctx, r):
             again = sc.evaluate(cuts[::-1])[::-1]
             if not _close(again, got, [got]).all():
                 ctx.violation(sub, "order-dependence", f"{label}: reversed batch differs", r)
+        # a row's score must not depend on the batch it is evaluated in: regular sub-batches (constant part
+        # sizes = sliding window, common outer interval, common start, single row) against the full batch
+        from vf.core import regular_subbatches
+
+        for bname, sel in regular_subbatches(rng, cuts):
+            v = sc.evaluate(cuts[sel])
+            ctx.stat("regular_subbatch_rows", len(sel))
+            ctx.stat(f"regular_subbatches[{bname}{', 2+ rows' if len(sel) > 1 else ''}]")
+            if v.shape != got[sel].shape or not _close(v, got[sel], [got[sel]]).all():
+                j = int(np.argwhere(~_close(v, got[sel], [got[sel]]).all(axis=1))[0, 0]) if v.shape == got[sel].shape else 0
+                ctx.violation(sub, "batch-dependence", f"{label}: cut {cuts[sel][j].tolist()} scores "
+                              f"{v[j].tolist() if v.shape == got[sel].shape else v.shape} in a {bname} batch of {len(sel)} rows but "
+                              f"{got[sel][j].tolist()} in the full batch", r)
+                break
     except RuntimeError as ex:
         if kind == "GaussianCovCost":
             ctx.stat("documented_runtimeerror")
@@ -357,6 +371,20 @@ def _direct(ctx, r, X, tol, rng, label):
             ctx.violation("direct-l2saving", "l2saving-vs-saving", f"{label}: L2Saving[{s},{e}) = "
                           f"{sav[i].tolist()} != Saving(L2Cost(0)) = {sav2[i].tolist()}", r)
             break
+    # the directly implemented scores in regular sub-batches (sliding window with unequal halves, one row, ...)
+    from vf.core import regular_subbatches
+
+    for nm, mk, cc, full in (("CUSUM", CUSUM, cuts3, cus), ("L2Saving", L2Saving, cuts2, sav)):
+        obj = mk().fit(X)
+        for bname, sel in regular_subbatches(rng, cc):
+            v = obj.evaluate(cc[sel])
+            ctx.stat("regular_subbatch_rows", len(sel))
+            ctx.stat(f"regular_subbatches[{bname}{', 2+ rows' if len(sel) > 1 else ''}]")
+            if v.shape != full[sel].shape or not _close(v, full[sel], [full[sel]]).all():
+                ctx.violation("direct-" + nm.lower(), "batch-dependence", f"{label}: {nm} rows of a {bname} batch "
+                              f"({cc[sel][:3].tolist()}...) differ from the same rows in the full batch: "
+                              f"{v[:3].tolist()} vs {full[sel][:3].tolist()}", r)
+                break
     # pass-throughs
     c = L2Cost()
     cs, sv, la = CUSUM(), L2Saving(), LocalAnomalyScore(L2Cost())
